@@ -419,7 +419,7 @@ func init() {
 		ID:    "C01",
 		Level: "exploration",
 		Rule: "files written by the independent PBF writer: (a) systematic present/absent toggles of each of 33 optional parts between consecutive blocks on the same decoder, consecutive groups of a block and consecutive elements of a group, each header field alone and all-but-it; " +
-			"(b) PRNG files of 1-40 blocks, 1-4 groups, 0-40 elements (plus a few files with up to 9000 elements per group, the size class of real extracts), arbitrary UTF-8, granularity/offset/date-granularity classes, raw and zlib, shuffled field order and string table, unknown fields; decoder counts {1,2,3,5,16,32} and the degenerate 0 / -1 (one decoder), nil context, chunked readers; both zlib back-ends (cgo/czlib and pure Go). " +
+			"(b) PRNG files of 1-40 blocks, 1-4 groups, 0-40 elements (plus a few files with up to 9000 elements per group, the size class of real extracts), arbitrary UTF-8, header bounding boxes whose four corners are independent numbers (one hemisphere, left > right, bottom > top), granularity/offset/date-granularity classes, raw and zlib, shuffled field order and string table, unknown fields; decoder counts {1,2,3,5,16,32} and the degenerate 0 / -1 (one decoder), nil context, chunked readers; both zlib back-ends (cgo/czlib and pure Go). " +
 			"A signature is the presence-bit/parameter-class vector of a block with >=1 element, or the toggled part and level; distinct_nontrivial counts distinct signatures.",
 		Assumptions: []string{
 			"an absent timestamp may be delivered as Go's zero time or as the Unix epoch (both are zero metadata); generated present timestamps are never 0",
